@@ -926,7 +926,7 @@ func runC06Mesh(run *ev.Run, midx int, seed int64) {
 
 func runC06(tier string, args []string) {
 	run := ev.New("C06", tier, "exploration")
-	run.Rule("monitor 1: per history a real node with 2-4 scripted sessions; 6-15 crafted updates (unique UpdateID + marker edge; epochs 5-7, sequences 1-4 so stale/equal collide; duplicate notices; self-origin updates) delivered on 1..k sessions concurrently with barriers, replays, interleaved reads of KnownConnectionCosts; relays attributed per UpdateID/session; porcupine checks the history against a sequential (epoch, sequence, marker, seen-set) model partitioned by origin. monitor 2: 3-6 real nodes over links that delay/reorder/duplicate/drop control messages, a scripted phantom origin delivering out of order/twice, restarts; tap-log invariants (at most one send per UpdateID per link direction, no relay back, no own update accepted, no stale relay, bounded flood, sampled picture monotone). distinct_nontrivial = histories containing >= 2 of {stale, equal, replay, self, notice, multi-session} + distinct mesh shapes")
+	run.Rule("monitor 1: per history a real node with 2-4 scripted sessions; 6-15 crafted updates (unique UpdateID + marker edge; epochs 5-7, sequences 1-4 so stale/equal collide; duplicate notices; self-origin updates) delivered on 1..k sessions concurrently with barriers, replays, interleaved reads of KnownConnectionCosts; relays attributed per UpdateID/session; porcupine checks the history against a sequential (epoch, sequence, marker, seen-set) model partitioned by origin. monitor 2: 3-6 real nodes over links that delay/reorder/duplicate/drop control messages, a scripted phantom origin delivering out of order/twice, restarts; monitor 3 (storms): 150-300 updates/notices each delivered on all 3-5 links of a node at the same instant (spin barrier) - at most one write per UpdateID per session, never to all. monitor 4 (link loss): the origin is a direct neighbour, its link is closed / it stops listing the node / it reconnects or restarts with a higher epoch, then not-newer updates with unseen UpdateIDs arrive via another neighbour: no change of the picture, no relay; a newer one is still taken. tap-log invariants (at most one send per UpdateID per link direction, no relay back, no own update accepted, no stale relay, bounded flood, sampled picture monotone). distinct_nontrivial = histories containing >= 2 of {stale, equal, replay, self, notice, multi-session} + distinct mesh shapes")
 	run.Assume("a suspected-duplicate notice whose SuspectedDuplicate equals the stored epoch re-bases the origin's reference point (DESIGN 3a)")
 	nh := run.Pick(300, 6000)
 	nm := run.Pick(10, 150)
@@ -963,6 +963,26 @@ func runC06(tier string, args []string) {
 			defer wg.Done()
 			defer func() { <-sem }()
 			runC06Mesh(run, i, mseeds[i])
+		}(i)
+	}
+	// storms (the same update on all links at the same instant) and link-loss histories (c06extra.go)
+	nst, nll := run.Pick(12, 120), run.Pick(60, 1200)
+	for i := 0; i < nst; i++ {
+		wg.Add(1)
+		sem <- struct{}{}
+		go func(i int) {
+			defer wg.Done()
+			defer func() { <-sem }()
+			runC06Storm(run, i, seeds[i%len(seeds)]^0x5707)
+		}(i)
+	}
+	for i := 0; i < nll; i++ {
+		wg.Add(1)
+		sem <- struct{}{}
+		go func(i int) {
+			defer wg.Done()
+			defer func() { <-sem }()
+			runC06LinkLoss(run, i, seeds[i%len(seeds)]^0x1055)
 		}(i)
 	}
 	wg.Wait()
